@@ -501,4 +501,33 @@ func packetTrunc(r *core.Run, t int) {
 			return
 		}
 	}
+	// the first error stays in place also while OTHER readers and writers fail in other primitives
+	if failed {
+		for k, n := 0, 1+c.Intn(3); k < n; k++ {
+			r.Call("packet.Reader.read", func() {
+				other := packet.NewPacketReader(c.Blob(c.Intn(3), "any"))
+				switch c.Intn(6) {
+				case 0:
+					other.ReadCString()
+				case 1:
+					other.ReadNBytes(5)
+				case 2:
+					other.ReadUint64()
+				case 3:
+					other.ReadCStringN(7)
+				case 4:
+					other.ReadBytes(make([]byte, 9))
+				default:
+					w := packet.NewPacketWriter()
+					w.WriteFixedLenString("too long for its slot", 3)
+					_, _ = w.Bytes()
+					w.Release()
+				}
+			})
+		}
+		r.Probe("other_readers_failed_meanwhile")
+		if rd.Error() == nil || rd.Error().Error() != firstErr {
+			r.Fail("C20", "first-error-replaced", "Reader.Error", "other-reader-failed", "first error %q reads %v after other readers failed", firstErr, rd.Error())
+		}
+	}
 }
